@@ -46,7 +46,8 @@ def _case(rng, to_df=None, auto=None, cases=None, shuffle=None):
         entry = rng.choice(['combo_runner_to_df', 'runner_df'] if to_df else ['combo_runner_to_ds', 'runner', 'label'])
     if entry.startswith('case_runner') and sw['combo_args']:
         pass
-    return {'sweep': sw, 'desc': desc, 'strategy': st, 'to_df': to_df, 'entry': entry, 'spell': rng.randrange(10 ** 6)}
+    return {'sweep': sw, 'desc': desc, 'strategy': st, 'to_df': to_df, 'entry': entry, 'spell': rng.randrange(10 ** 6),
+            'reuse': entry in ('runner', 'runner_df', 'label') and rng.random() < 0.3}
 
 
 def cases(ctx):
@@ -63,7 +64,7 @@ def cases(ctx):
     for c in out:
         ctx.count('entry', c['entry']); ctx.count('n_out', len(c['desc']['names'])); ctx.count('auto', c['desc']['auto'])
         ctx.count('internal_dims', sum(1 for d in c['desc']['dims'] if d)); ctx.count('cases', c['sweep']['rows'] is not None)
-        ctx.count('strategy', c['strategy']['name'])
+        ctx.count('strategy', c['strategy']['name']); ctx.count('runner_reused', bool(c.get('reuse')))
     return out
 
 
@@ -103,6 +104,13 @@ def run_real(c, ctx):
             else:
                 r = xyz.Runner(f, fn_args=sweeps.fn_args(sw), **common_kw)
             extra = {'to_df': True} if c['to_df'] else {}
+            if c.get('reuse'):
+                # the same Runner ran before with a per-run constant: it must not linger
+                if sw['rows'] is not None:
+                    pc0 = tuple((a, list(v)) for a, v in (combos.items() if isinstance(combos, dict) else combos)) if combos else ()
+                    r.run_cases(cases_t, fn_args=sw['case_args'], combos=pc0, constants={'zz_once': 1}, verbosity=0, **extra)
+                else:
+                    r.run_combos(combos, constants={'zz_once': 1}, verbosity=0, **extra)
             if sw['rows'] is not None:
                 # Runner.run_cases forwards `combos` unparsed (parse=False): give it the parsed form
                 pc = tuple((a, list(v)) for a, v in (combos.items() if isinstance(combos, dict) else combos)) if combos else ()
